@@ -31,6 +31,9 @@ Record asite := mk_asite {
   a_fn : string;                          (* enclosing function *)
   a_write : bool;
   a_atomic : bool;                        (* through sync/atomic (function or atomic.* typed field) *)
+  a_after_stop : bool;                    (* the access is dominated, in its block, by
+                                             v := obj.StopTime(); if v == 0 { continue / return }
+                                             on the very object accessed *)
   a_locks : list (string * mode * bool);  (* lock class, mode, lock of the very object accessed? *)
   a_roots : list root }.
 
@@ -49,8 +52,20 @@ Inductive protection :=
     (* two locks: every write holds both in write mode, every read holds at least one of them *)
 | Atomic                                  (* every access goes through sync/atomic *)
 | Immutable                               (* never written after publication *)
-| Confined (rs : list root).              (* touched only by goroutines of these roots and, per
+| Confined (rs : list root)               (* touched only by goroutines of these roots and, per
                                              object, by the single goroutine that owns it *)
+| ConfinedAfterStop (rs : list root).
+    (* a field of Client owned by the client's connection handler while the client is live:
+       the owner (roots rs) reads and writes it freely, always before it calls Client.Stop, whose
+       last action is the atomic store of State.disconnected; any other goroutine may only READ
+       it, and only after it has observed StopTime() <> 0 (the atomic load of State.disconnected)
+       on that client: the store happens-before the load that sees it, so every write the owner
+       made before Stop happens-before such a read.  The translator establishes the guard
+       syntactically (a_after_stop).
+       What the discipline does NOT establish, and what the current code gets wrong in a narrow
+       window (dynamic finding KF_C33_session_expiry below): Stop may also be called by another
+       goroutine (a newer session taking the client over, DisconnectClient, Close) while the owning
+       handler is still between Clients.Add and its last write. *)
 
 Record unit_decl := mk_unit {
   u_path : path;                          (* the unit = this field and everything below it *)
@@ -103,6 +118,9 @@ Definition holds_guard (c : string) (own needw : bool) (s : asite) : bool :=
 
 Definition exempt (u : unit_decl) (s : asite) : bool := mem_string (a_fn s) (u_exempt u).
 
+Definition confined_to (rs : list root) (s : asite) : bool :=
+  forallb (fun r => existsb (root_eqb r) rs || root_eqb r RI) (a_roots s).
+
 Definition keeps (u : unit_decl) (s : asite) : bool :=
   exempt u s ||
   match u_prot u with
@@ -112,7 +130,8 @@ Definition keeps (u : unit_decl) (s : asite) : bool :=
       else holds_guard c1 o1 false s || holds_guard c2 o2 false s
   | Atomic => a_atomic s
   | Immutable => negb (a_write s)
-  | Confined rs => forallb (fun r => existsb (root_eqb r) rs || root_eqb r RI) (a_roots s)
+  | Confined rs => confined_to rs s
+  | ConfinedAfterStop rs => confined_to rs s || (a_after_stop s && negb (a_write s))
   end.
 
 Definition covered (d : declaration) (s : asite) : bool :=
@@ -168,6 +187,10 @@ Definition synchronised (u : unit_decl) (s1 s2 : asite) : Prop :=
   | Immutable => False                    (* never happens: no write outside initialisation *)
   | Confined rs =>                        (* same owning goroutine *)
       (forall r, In r (a_roots s1) -> In r (RI :: rs)) /\ (forall r, In r (a_roots s2) -> In r (RI :: rs))
+  | ConfinedAfterStop rs =>               (* each access is the owner's, or a read ordered after the
+                                             owner's Stop by the atomic State.disconnected *)
+      (confined_to rs s1 = true \/ (a_after_stop s1 = true /\ a_write s1 = false)) /\
+      (confined_to rs s2 = true \/ (a_after_stop s2 = true /\ a_write s2 = false))
   end.
 
 (* ===================================================================================== *)
@@ -201,14 +224,10 @@ Definition decl : declaration := [
   (* the will is cleared by the handler at a clean disconnect and read by it when it fires; the
      event loop clears it as well when a delayed will fires (server.go sendDelayedLWT) *)
   KF ["Client"; "Properties"; "Will"] (Confined [RH; RA]) client_init "KF_C33_will";
-  (* written by the handler (CONNACK cap, DISCONNECT); read by the event loop in
-     clearExpiredClients only after it has observed StopTime() <> 0 (atomic load of
-     State.disconnected, stored by Client.Stop after the handler's last write): ordered by that
-     atomic flag *)
-  U ["Client"; "Properties"; "Props"; "SessionExpiryInterval"] (Confined [RH; RA])
-    ("Server.clearExpiredClients" :: client_init);
-  U ["Client"; "Properties"; "Props"; "SessionExpiryIntervalFlag"] (Confined [RH; RA])
-    ("Server.clearExpiredClients" :: client_init);
+  (* written by the handler (CONNACK cap in SendConnack, DISCONNECT in processDisconnect); read by
+     the event loop in clearExpiredClients, which must first have observed StopTime() <> 0 *)
+  U ["Client"; "Properties"; "Props"; "SessionExpiryInterval"] (ConfinedAfterStop [RH; RA]) client_init;
+  U ["Client"; "Properties"; "Props"; "SessionExpiryIntervalFlag"] (ConfinedAfterStop [RH; RA]) client_init;
   U ["Client"; "State"] Immutable client_init;
   U ["Client"; "State"; "Keepalive"] (Confined [RH; RA]) client_init;
   U ["Client"; "State"; "ServerKeepalive"] (Confined [RH; RA]) client_init;
@@ -283,6 +302,21 @@ Definition kf_of_fn (d : declaration) (t : access_table) (f : string) : list str
 
 Definition common (a b : list string) : list string := filter (fun x => mem_string x b) a.
 
+(* Findings that exist only dynamically: the access table keeps the declared discipline, but an
+   assumption behind the discipline fails.  A race report between two different functions of the
+   same entry is explained by it.
+   - KF_C33_session_expiry: Client.Stop is called by another goroutine (session takeover,
+     DisconnectClient, Close) while the client's own handler has not yet written the capped
+     Session Expiry Interval (SendConnack, after Clients.Add) or is rewriting it (processDisconnect);
+     clearExpiredClients then sees StopTime() <> 0 and reads the field concurrently.
+   (The WaitGroup Add/Wait misuse KF_C33_wg_add_wait is matched directly in the engine below.) *)
+Definition dynamic_findings : list (string * list string) :=
+  [ ("KF_C33_session_expiry", ["Server.clearExpiredClients"; "Server.SendConnack"; "Server.processDisconnect"]) ].
+
+Definition dynamic_kf (f1 f2 : string) : list string :=
+  flat_map (fun e => if negb (String.eqb f1 f2) && mem_string f1 (snd e) && mem_string f2 (snd e)
+                     then [fst e] else []) dynamic_findings.
+
 Definition race_engine_with (d : declaration) (t : access_table) (c : val) : val :=
   match c with
   | VL [VN 0; VB name; VN races; VN nops] =>
@@ -295,7 +329,7 @@ Definition race_engine_with (d : declaration) (t : access_table) (c : val) : val
          reported as a race on the WaitGroup's internal state, which is not a field of the table) *)
       let wg a b := String.eqb a "Server.attachClient" && String.eqb b "listeners.Listeners.CloseAll" in
       if wg s1 s2 || wg s2 s1 then verdict 3 (tag "race") true [VB (bytes_of_str "KF_C33_wg_add_wait"); VB f1; VB f2] else
-      match common (kf_of_fn d t s1) (kf_of_fn d t s2) with
+      match List.app (dynamic_kf s1 s2) (common (kf_of_fn d t s1) (kf_of_fn d t s2)) with
       | k :: _ => verdict 3 (tag "race") true [VB (bytes_of_str k); VB f1; VB f2]
       | [] => verdict 1 (tag "race") true [VB f1; VB f2; VB detail]
       end
